@@ -6,6 +6,7 @@ import (
 	"go/constant"
 	"go/token"
 	"go/types"
+	"sort"
 	"strings"
 
 	"golang.org/x/tools/go/ssa"
@@ -613,8 +614,8 @@ func included(call *ssa.Call, b *ssa.BasicBlock) bool {
 				if neg {
 					yes, no = no, yes
 				}
-				// the false side leads away (continue): b must not be reachable from it without coming back through the loop
-				if yes.Dominates(b) || (!core.ReachableAvoiding(no, map[*ssa.BasicBlock]bool{x.Block(): true})[b] && core.Reachable(yes)[b]) {
+				_ = no
+				if yes != x.Block() && yes.Dominates(b) {
 					ok = true
 				}
 			}
@@ -778,4 +779,418 @@ func r2Data(c *core.Ctx, r *core.Reporter) {
 	}
 	r.Check(!bad, "executePlannedSelection/non-nil-result", pos, "every exit returns a map",
 		"executePlannedSelection has an exit that returns nil: a request whose root selections are all removed by literal @skip/@include gets {\"data\":null} with no error, the one combination the response format excludes")
+}
+
+func init() {
+	register(&core.Rule{Name: "C02/FLOW-leafconflict", Props: []string{"C02"}, Min: 1,
+		Doc: "two response shapes conflict as soon as either of them is a leaf type (unless identical)", Run: r2LeafConflict})
+	register(&core.Rule{Name: "C05/DOM-intreturn", Props: []string{"C05"}, Min: 1,
+		Doc: "every integer coerceInt hands back has been compared with the 32-bit bounds, is narrower than 32 bits, or comes from coerceInt itself", Run: r2IntReturn})
+	register(&core.Rule{Name: "C19/FLOW-memoadd", Props: []string{"C19", "C02", "C09"}, Min: 2,
+		Doc: "the comparison memos record exactly the exclusivity flag of the comparison just made", Run: r2MemoAdd})
+	register(&core.Rule{Name: "C11/PAIR-implloops", Props: []string{"C11"}, Min: 2,
+		Doc: "for every interface field both argument checks (interface arguments present, extra arguments optional) run", Run: r2ImplLoops})
+	register(&core.Rule{Name: "C13/DOM-nosort", Props: []string{"C13"}, Min: 1,
+		Doc: "the plan's field slices are never handed to a sorting or reordering routine", Run: r2NoSort})
+	register(&core.Rule{Name: "C19/REC-loopset", Props: []string{"C19", "C09"}, Min: 1,
+		Doc: "a visited set handed to the fragment collector is not created inside a loop over occurrences", Run: r2LoopSet})
+	register(&core.Rule{Name: "C04/FLOW-walked", Props: []string{"C04", "C13"}, Min: 5,
+		Doc: "what a forced thunk yields is itself walked for nested maps, lists and thunks", Run: r2Walked})
+}
+
+// r2LeafConflict: doTypesConflict's last rule: if EITHER type is a leaf the two conflict unless identical. Written with
+// `&&`, a scalar and an object under one response key are no conflict (and the sub-selection comparison is skipped since
+// one side has none). Structurally: from the true side of each IsLeafType test the identity comparison is reached without
+// going through the other IsLeafType test.
+func r2LeafConflict(c *core.Ctx, r *core.Reporter) {
+	fn := c.Func("", "doTypesConflict")
+	leaf := c.Func("", "IsLeafType")
+	if fn == nil || leaf == nil {
+		r.Unknown("doTypesConflict/leaf-or", token.NoPos, "doTypesConflict / IsLeafType not found")
+		return
+	}
+	sites := core.CallsTo(fn, leaf, false)
+	if len(sites) != 2 {
+		r.Unknown("doTypesConflict/leaf-or", fn.Pos(), "expected the leaf test of both types, found %d IsLeafType calls", len(sites))
+		return
+	}
+	// the identity comparison of the two parameters
+	var cmp *ssa.BinOp
+	core.Instrs(fn, func(in ssa.Instruction) {
+		if bo, ok := in.(*ssa.BinOp); ok && (bo.Op == token.NEQ || bo.Op == token.EQL) {
+			if _, ok := bo.X.(*ssa.Parameter); ok {
+				if _, ok := bo.Y.(*ssa.Parameter); ok {
+					cmp = bo
+				}
+			}
+		}
+	})
+	if cmp == nil {
+		r.Bad("doTypesConflict/leaf-or", fn.Pos(), "doTypesConflict no longer compares the two leaf types for identity")
+		return
+	}
+	okAll := true
+	for i, s := range sites {
+		call := s.(*ssa.Call)
+		other := sites[1-i].Block()
+		reached := false
+		for _, ref := range *call.Referrers() {
+			iff, ok := ref.(*ssa.If)
+			if !ok {
+				continue
+			}
+			t := iff.Block().Succs[0]
+			if t == cmp.Block() || core.ReachableAvoiding(t, map[*ssa.BasicBlock]bool{other: true})[cmp.Block()] {
+				reached = true
+			}
+		}
+		if !reached {
+			okAll = false
+		}
+	}
+	r.Check(okAll, "doTypesConflict/leaf-or", cmp.Pos(), "either type being a leaf leads to the identity comparison",
+		"in doTypesConflict one type being a leaf is not enough to reach the identity comparison (the two leaf tests are joined by && instead of ||): a scalar and an object type under the same response key are reported as compatible, and their sub-selections are never compared because one side has none")
+}
+
+// r2IntReturn: coerceInt is the single producer of Int values (Serialize, ParseValue and, through it, ParseLiteral). Each
+// exit that hands back an integer must have established that it fits 32 bits.
+func r2IntReturn(c *core.Ctx, r *core.Reporter) {
+	fn := c.Func("", "coerceInt")
+	if fn == nil {
+		r.Unknown("coerceInt/returns", token.NoPos, "not found")
+		return
+	}
+	narrow := func(t types.Type) bool {
+		b, ok := t.Underlying().(*types.Basic)
+		if !ok {
+			return false
+		}
+		switch b.Kind() {
+		case types.Int8, types.Int16, types.Int32, types.Uint8, types.Uint16, types.Bool:
+			return true
+		}
+		return false
+	}
+	isBound := func(v ssa.Value) bool {
+		k, ok := v.(*ssa.Const)
+		if !ok || k.Value == nil {
+			return false
+		}
+		s := k.Value.ExactString()
+		return s == "2147483647" || s == "-2147483648" || s == "2147483648" || s == "-2147483649"
+	}
+	// root of a conversion chain
+	root := func(v ssa.Value) ssa.Value {
+		for {
+			switch x := v.(type) {
+			case *ssa.Convert:
+				v = x.X
+			case *ssa.ChangeType:
+				v = x.X
+			default:
+				return v
+			}
+		}
+	}
+	n, bad := 0, 0
+	for _, ret := range core.Returns(fn) {
+		if len(ret.Results) != 1 {
+			continue
+		}
+		v := core.RetVal(ret, 0)
+		mi, ok := v.(*ssa.MakeInterface)
+		if !ok {
+			continue // nil, or the result of coerceInt itself
+		}
+		n++
+		x := mi.X
+		if _, isConst := x.(*ssa.Const); isConst {
+			continue
+		}
+		src := root(x)
+		if narrow(src.Type()) {
+			continue
+		}
+		// a comparison of the source (or a conversion of it) with a 32-bit bound dominates the return
+		guarded := false
+		core.Instrs(fn, func(in ssa.Instruction) {
+			bo, ok := in.(*ssa.BinOp)
+			if !ok {
+				return
+			}
+			switch bo.Op {
+			case token.LSS, token.GTR, token.LEQ, token.GEQ:
+			default:
+				return
+			}
+			if (root(bo.X) == src && isBound(bo.Y)) || (root(bo.Y) == src && isBound(bo.X)) {
+				if core.InstrDominates(bo, ret) {
+					guarded = true
+				}
+			}
+		})
+		if !guarded {
+			bad++
+			r.Bad(fmt.Sprintf("coerceInt/unguarded-return#%d", bad), ret.Pos(), "coerceInt returns an integer (%s) that has not been compared with the 32-bit bounds: a value outside [-2^31, 2^31-1] supplied that way (a decimal string in a variable, say) is accepted as an Int and reaches the resolver, while the same value as a literal or a number is rejected", core.Join(core.Classes(src)))
+		}
+	}
+	if bad == 0 {
+		r.OK("coerceInt/returns", fn.Pos(), "%d integer exits: each narrower than 32 bits, constant, or dominated by a comparison with the 32-bit bounds", n)
+	}
+	if n < 15 {
+		r.Unknown("coerceInt/returns", fn.Pos(), "only %d integer exits found in coerceInt (anchor moved)", n)
+	}
+}
+
+// r2MemoAdd: pairSet.Add / fieldsAndFragmentSet.Add store the flag of the comparison that has just been completed.
+// Merging it with what is already there (`old || new`) keeps an entry "exclusive" after the stricter non-exclusive
+// comparison has been done, so that comparison is never remembered: fragment DAGs are re-walked per path (2^levels) and
+// cycles never terminate.
+func r2MemoAdd(c *core.Ctx, r *core.Reporter) {
+	for _, name := range []string{"pairSet.Add", "fieldsAndFragmentSet.Add"} {
+		fn := c.Func("", name)
+		if fn == nil {
+			r.Unknown(name+"/stores-flag", token.NoPos, "not found")
+			continue
+		}
+		var flag *ssa.Parameter
+		for _, p := range fn.Params {
+			if b, ok := p.Type().Underlying().(*types.Basic); ok && b.Kind() == types.Bool {
+				flag = p
+			}
+		}
+		n, okAll := 0, flag != nil
+		var pos token.Pos
+		fns := c.Region(fn)
+		for _, site := range core.CallSites(fn) { // a helper that does the actual store, given the flag
+			if cal := site.Common().StaticCallee(); cal != nil && c.IsLib(cal) && cal.Blocks != nil {
+				passes := false
+				for _, a := range site.Common().Args {
+					if a == ssa.Value(flag) {
+						passes = true
+					}
+				}
+				if passes {
+					fns = append(fns, cal)
+				}
+			}
+		}
+		for _, g := range fns {
+			core.Instrs(g, func(in ssa.Instruction) {
+				mu, ok := in.(*ssa.MapUpdate)
+				if !ok {
+					return
+				}
+				if b, ok := mu.Value.Type().Underlying().(*types.Basic); !ok || b.Kind() != types.Bool {
+					return
+				}
+				n++
+				pos = mu.Pos()
+				if ok, _ := core.OnlyClasses(mu.Value, "param:bool"); !ok {
+					okAll = false
+				}
+			})
+		}
+		if n == 0 {
+			r.Unknown(name+"/stores-flag", fn.Pos(), "no boolean store into the memo found")
+			continue
+		}
+		r.Check(okAll, name+"/stores-flag", pos, "the memo entry is the exclusivity flag of the comparison just made",
+			name+" stores something else than its exclusivity parameter (the old entry merged in): once a pair has been recorded as compared-while-exclusive the later non-exclusive comparison is never recorded, every later query for it misses, and validation re-walks fragment DAGs once per path or never terminates on a fragment cycle")
+	}
+}
+
+// r2ImplLoops: assertObjectImplementsInterface checks, per interface field, (1) every interface argument exists on the
+// object field with an equal type and (2) every additional object argument is optional. Both are loops; each iteration
+// of the outer loop must go through both (a shortcut `continue` for argument-less interface fields skips (2)).
+func r2ImplLoops(c *core.Ctx, r *core.Reporter) {
+	fn := c.Func("", "assertObjectImplementsInterface")
+	if fn == nil {
+		r.Unknown("assertObjectImplementsInterface/argument-loops", token.NoPos, "not found")
+		return
+	}
+	loops := core.Loops(fn)
+	depth := func(h *ssa.BasicBlock) int {
+		d := 0
+		for h2, body := range loops {
+			if h2 != h && body[h] {
+				d++
+			}
+		}
+		return d
+	}
+	// the loop over the interface's fields: the outermost loop that has loops inside it
+	var outer *ssa.BasicBlock
+	for h, body := range loops {
+		if depth(h) != 0 {
+			continue
+		}
+		for h2 := range loops {
+			if h2 != h && body[h2] && (outer == nil || h.Index < outer.Index) {
+				outer = h
+			}
+		}
+	}
+	if outer == nil {
+		r.Unknown("assertObjectImplementsInterface/argument-loops", fn.Pos(), "nested loops over fields and arguments not found")
+		return
+	}
+	// the two argument checks: the loops directly inside it
+	inner := map[*ssa.BasicBlock]bool{}
+	for h := range loops {
+		if h != outer && loops[outer][h] && depth(h) == 1 {
+			inner[h] = true
+		}
+	}
+	if len(inner) < 2 {
+		r.Bad("assertObjectImplementsInterface/argument-loops", fn.Pos(), "assertObjectImplementsInterface has %d loop(s) over arguments inside the loop over interface fields, expected two (interface arguments implemented; additional arguments optional)", len(inner))
+		return
+	}
+	// from the outer loop's body, the outer header must not be reachable again while avoiding any of the inner headers
+	var hs []*ssa.BasicBlock
+	for h := range inner {
+		hs = append(hs, h)
+	}
+	sort.Slice(hs, func(a, b int) bool { return hs[a].Index < hs[b].Index })
+	i := 0
+	for _, h := range hs {
+		i++
+		avoid := map[*ssa.BasicBlock]bool{h: true}
+		skipped := false
+		for _, s := range outer.Succs {
+			if !loops[outer][s] {
+				continue
+			}
+			for b := range core.ReachableAvoiding(s, avoid) {
+				if b == outer {
+					skipped = true
+				}
+			}
+		}
+		r.Check(!skipped, fmt.Sprintf("assertObjectImplementsInterface/argument-loop#%d", i), h.Instrs[0].Pos(),
+			"every iteration over an interface field passes this argument check",
+			"assertObjectImplementsInterface has a path that goes to the next interface field without passing one of its two argument checks: an object field that adds a required argument to an argument-less interface field (or misses an interface argument) is accepted")
+	}
+}
+
+// r2NoSort: the order of selectionPlan.fields is the order of execution of a mutation's top-level fields; sorting or
+// partitioning it (unconditional fields first, say) changes that order.
+func r2NoSort(c *core.Ctx, r *core.Reporter) {
+	bad := ""
+	var pos token.Pos
+	n := 0
+	for _, fn := range c.LibFuncs() {
+		for _, ci := range core.CallSites(fn) {
+			cal := ci.Common().StaticCallee()
+			if cal == nil || cal.Pkg == nil {
+				continue
+			}
+			pth := cal.Pkg.Pkg.Path()
+			if pth != "sort" && pth != "slices" {
+				continue
+			}
+			n++
+			for _, a := range ci.Common().Args {
+				for _, k := range core.Classes(a) {
+					if k == "field:selectionPlan.fields" {
+						bad = fmt.Sprintf("%s hands selectionPlan.fields to %s.%s", fnKey(fn), cal.Pkg.Pkg.Name(), cal.Name())
+						pos = ci.Pos()
+					}
+				}
+			}
+		}
+	}
+	r.Check(bad == "", "selectionPlan.fields/never-reordered", pos, fmt.Sprintf("none of the %d sort / slices calls of the library touches a plan's field slice", n),
+		bad+": the slice's order is the order in which a mutation's top-level fields take effect; reordering it (gated fields last, by name, …) makes `mutation { a @include(if:$v) b }` run b before a")
+}
+
+// r2LoopSet: planMergedSelectionsForType collects the sub-selections of all occurrences of a merged field into one
+// plan with one visited set. A set created per occurrence (inside the loop) lets a fragment spread by k occurrences be
+// collected k times — 2^depth when that repeats level after level.
+func r2LoopSet(c *core.Ctx, r *core.Reporter) {
+	ci := c.Func("", "Plan.collectInto")
+	if ci == nil {
+		r.Unknown("collectInto/visited-set-per-call", token.NoPos, "not found")
+		return
+	}
+	n := 0
+	for _, fn := range c.LibFuncs() {
+		for _, site := range core.CallsTo(fn, ci, false) {
+			for _, a := range site.Common().Args {
+				mm, ok := a.(*ssa.MakeMap)
+				if !ok {
+					continue
+				}
+				if m, ok := mm.Type().Underlying().(*types.Map); !ok || m.Elem().String() != "bool" {
+					continue
+				}
+				n++
+				key := fmt.Sprintf("%s/fresh-visited-set#%d", fnKey(fn), n)
+				r.Check(!core.InAnyLoop(mm.Block()), key, mm.Pos(), "the set is created once, outside any loop",
+					fnKey(fn)+" creates the visited-fragment set inside a loop, once per occurrence of the merged field: a fragment spread by several same-key occurrences is collected once per occurrence, and nested level after level the work (and the occurrence lists handed to resolvers) grow as 2^depth")
+			}
+		}
+	}
+	if n == 0 {
+		r.OK("collectInto/visited-set-per-call", ci.Pos(), "no caller hands a freshly made set to collectInto")
+	}
+}
+
+// r2Walked: forcing a thunk is not the end: what it yields can contain maps, lists and further thunks. In every dethunk
+// function, after the call of a thunk some descent must still be reachable before the function is left or the next
+// element is taken (a type test of the result for map / list, or a call of a walker); `return val()` skips it.
+func r2Walked(c *core.Ctx, r *core.Reporter) {
+	for _, fn := range c.LibFuncs() {
+		if fn.Parent() != nil || !strings.HasPrefix(fnKey(fn), "dethunk") || strings.Contains(fnKey(fn), ".") {
+			continue
+		}
+		var forces []*ssa.Call
+		core.Instrs(fn, func(in ssa.Instruction) {
+			if call, ok := in.(*ssa.Call); ok && strings.HasPrefix(core.UserCallback(call), "thunk") {
+				forces = append(forces, call)
+			}
+		})
+		if len(forces) == 0 {
+			continue
+		}
+		key := fnKey(fn) + "/forced-value-walked"
+		okAll := true
+		headers := core.Loops(fn)
+		for _, f := range forces {
+			avoid := map[*ssa.BasicBlock]bool{}
+			for h := range headers {
+				avoid[h] = true
+			}
+			walked := false
+			check := func(b *ssa.BasicBlock, from int) {
+				for i, in := range b.Instrs {
+					if i < from {
+						continue
+					}
+					switch x := in.(type) {
+					case *ssa.TypeAssert:
+						switch x.AssertedType.Underlying().(type) {
+						case *types.Map, *types.Slice:
+							walked = true
+						}
+					case *ssa.Call:
+						if cal := x.Call.StaticCallee(); cal != nil && strings.HasPrefix(core.N(cal), "dethunk") {
+							walked = true
+						}
+					}
+				}
+			}
+			check(f.Block(), core.InstrIndex(f)+1)
+			for b := range core.ReachableAvoiding(f.Block(), avoid) {
+				if b != f.Block() {
+					check(b, 0)
+				}
+			}
+			if !walked {
+				okAll = false
+			}
+		}
+		r.Check(okAll, key, forces[0].Pos(), "after a thunk is forced its result is tested for map / list or handed to a walker",
+			fnKey(fn)+" forces a thunk and leaves without walking what the thunk yielded: maps, lists and thunks inside that value stay unforced — raw functions end up in Result.Data (also at non-null positions) and the errors of deferred fields below are never recorded")
+	}
 }
